@@ -250,8 +250,37 @@ func runG11(r *Repo, rep *Report) {
 		}
 		// every plugin is polled in every round: the range over pkg.plugins inside the loop has no continue/break that skips ToGenerate
 		skipped := false
+		gpar := parents(fi.Decl)
+		// a break that leaves a switch or a select (labelled or not) does not leave a loop: it is the end of a case
+		leavesSwitch := func(br *ast.BranchStmt) bool {
+			if br.Tok != token.BREAK {
+				return false
+			}
+			if br.Label != nil {
+				found := false
+				ast.Inspect(fi.Decl.Body, func(m ast.Node) bool {
+					if ls, ok := m.(*ast.LabeledStmt); ok && ls.Label.Name == br.Label.Name {
+						switch ls.Stmt.(type) {
+						case *ast.SwitchStmt, *ast.TypeSwitchStmt, *ast.SelectStmt:
+							found = true
+						}
+					}
+					return true
+				})
+				return found
+			}
+			for p := gpar[br]; p != nil; p = gpar[p] {
+				switch p.(type) {
+				case *ast.SwitchStmt, *ast.TypeSwitchStmt, *ast.SelectStmt:
+					return true
+				case *ast.ForStmt, *ast.RangeStmt, *ast.FuncLit:
+					return false
+				}
+			}
+			return false
+		}
 		ast.Inspect(fi.Decl.Body, func(x ast.Node) bool {
-			if br, ok := x.(*ast.BranchStmt); ok && (br.Tok == token.CONTINUE || br.Tok == token.BREAK || br.Tok == token.GOTO) {
+			if br, ok := x.(*ast.BranchStmt); ok && (br.Tok == token.CONTINUE || br.Tok == token.BREAK || br.Tok == token.GOTO) && !leavesSwitch(br) {
 				skipped = true
 				rep.fail(Finding{Rule: "G11", Key: "G11|pkg.Generate|skips", Where: []string{r.pos(br.Pos())},
 					Msg: "(*pkg).Generate skips part of a work-list round (" + br.Tok.String() + "): a generator with pending requests may never be polled again"})
